@@ -44,6 +44,7 @@ var properties = map[string]*Property{}
 type G struct {
 	Rnd   *rand.Rand
 	Tier  string
+	sampleRnd *rand.Rand
 	prop  *Property
 	out   *bufio.Writer
 	stats *Stats
@@ -80,6 +81,27 @@ var (
 	curCase  atomic.Value // string
 	curStart atomic.Int64
 )
+
+// A fatal runtime error of the code under test (unexpected fault address, concurrent map writes,
+// stack exhaustion, ...) cannot be recovered.  So that the case can still be named, the number of
+// the case about to run is written (8 bytes, in place) to the file $IMPLRUN_PROGRESS, and
+// "-only N" re-generates the same stream, prints case N and then runs just that one.
+var (
+	caseNo       uint64
+	onlyCase     uint64
+	progressFile *os.File
+)
+
+func noteProgress() {
+	if progressFile == nil {
+		return
+	}
+	var b [8]byte
+	for i := 0; i < 8; i++ {
+		b[i] = byte(caseNo >> (8 * i))
+	}
+	_, _ = progressFile.WriteAt(b[:], 0)
+}
 
 func watchdog() {
 	for {
@@ -121,6 +143,17 @@ func (g *G) Emit(fn string, args ...string) {
 	if !ok {
 		panic("no executor for " + fn)
 	}
+	caseNo++
+	if onlyCase != 0 {
+		if caseNo != onlyCase {
+			return
+		}
+		fmt.Println(fn + "\t" + strings.Join(args, "\t"))
+		os.Stdout.Sync()
+		fmt.Println("OBS\t" + runExec(e, fn, args))
+		os.Exit(0)
+	}
+	noteProgress()
 	obs := runExec(e, fn, args)
 	line := fn + "\t" + strings.Join(args, "\t") + "\t" + obs
 	g.out.WriteString(line)
@@ -149,7 +182,8 @@ func (g *G) Emit(fn string, args ...string) {
 	if g.prop.Class != nil {
 		st.ByClass[g.prop.Class(fn, args, obs)]++
 	}
-	if len(st.Samples) < 6 || (len(st.Samples) < 14 && g.Rnd.IntN(2000) == 0) {
+	// (sampling has its own generator: the case stream must not depend on what was executed)
+	if len(st.Samples) < 6 || (len(st.Samples) < 14 && g.sampleRnd.IntN(2000) == 0) {
 		if len(line) > 400 {
 			line = line[:400] + "..."
 		}
@@ -242,9 +276,15 @@ func main() {
 			statsFile = os.Args[i]
 		case "-exec":
 			execMode = true
+		case "-only":
+			i++
+			onlyCase, _ = strconv.ParseUint(os.Args[i], 10, 64)
 		}
 	}
 	go watchdog()
+	if pf := os.Getenv("IMPLRUN_PROGRESS"); pf != "" && !execMode && onlyCase == 0 {
+		progressFile, _ = os.OpenFile(pf, os.O_CREATE|os.O_WRONLY|os.O_TRUNC, 0o644)
+	}
 
 	if execMode {
 		// re-execute given cases (fn \t args...), print "fn \t args \t obs"
@@ -282,6 +322,7 @@ func main() {
 	}
 	g := &G{
 		Rnd:  rand.New(rand.NewPCG(seed, 0x9e3779b97f4a7c15)),
+		sampleRnd: rand.New(rand.NewPCG(seed, 0x5a17)),
 		Tier: tier,
 		prop: prop,
 		out:  w,
